@@ -1043,6 +1043,8 @@ type responseWriter struct {
 	headersFlushed bool
 	// have we already written the end of the stream (error/trailers/etc)?
 	endWritten bool
+	// receives header writes made by the handler after endWritten
+	discardedHeader http.Header
 	respMeta   *responseMeta
 	err        error
 	// wraps op.writer; initialized after headers are written
@@ -1054,6 +1056,15 @@ type responseWriter struct {
 }
 
 func (w *responseWriter) Header() http.Header {
+	if w.endWritten {
+		// The final disposition has already been sent to the client. Headers
+		// and trailers that the handler sets from now on must not reach it:
+		// they would show up as stray trailers or as a second status.
+		if w.discardedHeader == nil {
+			w.discardedHeader = make(http.Header)
+		}
+		return w.discardedHeader
+	}
 	return w.delegate.Header()
 }
 
